@@ -51,3 +51,32 @@ package ckks
 
 //@ readonly Evaluator.MulRelinThenAdd op1
 //@   property C09
+
+// ---- no residue in the output of a scalar operation (property C09): the output element has exactly
+// ---- the degree of the input, whatever degree it had before ----
+//@ afunc Evaluator.Mul#scalar
+//@   property C09
+//@   dyn op1 float64
+//@   nilable
+//@   requires len(op0.Value) >= 1 && len(op0.Value) <= 3
+//@   ensures implies(isnil(err), len(opOut.Value) == len(op0.Value))
+
+//@ afunc bigComplexToRNSScalar
+//@   trusted opaque at the abstract level: two RNS scalars
+
+//@ afunc Evaluator.evaluateWithScalar
+//@   trusted opaque at the abstract level: applies the row operation to the first len(p0) components (values not tracked)
+
+//@ afunc Evaluator.Add#scalar
+//@   property C09
+//@   dyn op1 float64
+//@   nilable
+//@   requires len(op0.Value) >= 1 && len(op0.Value) <= 3
+//@   ensures implies(isnil(err), len(opOut.Value) == len(op0.Value))
+
+//@ afunc Evaluator.Sub#scalar
+//@   property C09
+//@   dyn op1 float64
+//@   nilable
+//@   requires len(op0.Value) >= 1 && len(op0.Value) <= 3
+//@   ensures implies(isnil(err), len(opOut.Value) == len(op0.Value))
